@@ -23,6 +23,8 @@ theorem verdict :
 #print axioms resolves_to_last_registration
 #print axioms reregistration_ignored_witness
 #print axioms refutes_reregistration
+#print axioms torn_save_witness
+#print axioms refutes_torn_save
 #print axioms Hv.Settings.registry_follows_history
 #print axioms Hv.Settings.entryFor_register
 #print axioms Hv.Settings.wf_register
